@@ -1,6 +1,6 @@
 """SKEL drivers: enumerate structural parameter boxes for the functions named in DESIGN section 4 (bounded, labelled [SKEL])."""
 import itertools
-from .skel import (explore, SK, Py, Bag, Tok, DEF, Ord, Violation, Unsupported, Tally, run_case, pts, floats, shape_ok, STD_ABSTRACTED, footprint)
+from .skel import (explore, SK, Py, Bag, Tok, DEF, Ord, Mono, Violation, Unsupported, Tally, run_case, pts, floats, shape_ok, STD_ABSTRACTED, footprint)
 from .model import AnalysisError
 
 
@@ -1102,3 +1102,108 @@ def ex2(m, run):
                     break
         run.ob('EX2.extracted-curve-families', key, why is None, 'both families carry the rows, degree and knot vector of their own direction' if why is None else why,
                'geomdl/construct.py in construct.extract_curves')
+
+
+# ====================================================================================== compatibility converters on monomial cells
+def _mono_grid(su, sv, hd):
+    return [[[Mono({(i, j, c): 1}) for c in range(hd)] for j in range(sv)] for i in range(su)]
+
+
+def _weighted(cell, sign):
+    w = cell[-1]
+    return [c.combine(w, sign) for c in cell[:-1]] + [w]
+
+
+ANY = object()
+
+
+def _same_cells(got, want):
+    """None when the nested lists agree cell by cell, else a description of the first difference"""
+    def walk(g, w, path):
+        if isinstance(w, list):
+            if not isinstance(g, (list, tuple)):
+                return 'at %s: expected a list of %d, found %r' % (path or 'top', len(w), g)
+            if len(g) != len(w):
+                return 'at %s: %d entries, expected %d' % (path or 'top', len(g), len(w))
+            for k, (a, b) in enumerate(zip(g, w)):
+                r = walk(a, b, path + '[%d]' % k)
+                if r:
+                    return r
+            return None
+        if w is ANY:
+            return None
+        if isinstance(w, frozenset):
+            return None if isinstance(g, Tok) and g.dep == w else 'at %s: found a value computed from %s, expected one computed from %s' % (path, sorted(g.dep) if isinstance(g, Tok) and g.dep else g, sorted(w))
+        if isinstance(w, Mono):
+            return None if isinstance(g, Mono) and g == w else 'at %s: found %r, expected %r' % (path, g, w)
+        return None if g == w else 'at %s: found %r, expected %r' % (path, g, w)
+    return walk(got, want, '')
+
+
+def cv3(m, run, which=('pure', 'file')):
+    """CV3: every converter of geomdl.compatibility interpreted on a non-square net whose coordinates are monomial atoms: the result is,
+    cell by cell, the documented one (x*w / x/w / w kept, [u][v] <-> [v][u], u-fastest <-> v-fastest) and the 2-D file variants save the
+    array of their own converter with the row / column counts of the array they save"""
+    su, sv = 2, 3
+    g4 = _mono_grid(su, sv, 4)
+    flat_canon = [g4[i][j] for i in range(su) for j in range(sv)]          # v fastest
+    flat_ufast = [g4[i][j] for j in range(sv) for i in range(su)]          # u fastest
+    g3 = _mono_grid(su, sv, 3)
+    flat3 = [g3[i][j] for i in range(su) for j in range(sv)]
+    ws = [Mono({('w', k): 1}) for k in range(su * sv)]
+    cases = []
+    if 'pure' in which:
+        cases += [
+            ('flip_ctrlpts_u', [flat_ufast, su, sv], flat_canon, 'a u-fastest list becomes the v-fastest list of the same net'),
+            ('flip_ctrlpts', [flat_canon, su, sv], flat_ufast, 'a v-fastest list becomes the u-fastest list of the same net'),
+            ('flip_ctrlpts2d', [g4, su, sv], [[g4[i][j] for i in range(su)] for j in range(sv)], '[u][v] becomes [v][u]'),
+            ('flip_ctrlpts2d', [g4], [[g4[i][j] for i in range(su)] for j in range(sv)], '[u][v] becomes [v][u] (sizes detected)'),
+            ('generate_ctrlptsw', [flat_canon], [_weighted(c, 1) for c in flat_canon], '(x, y, z, w) becomes (x*w, y*w, z*w, w)'),
+            ('generate_ctrlpts_weights', [flat_canon], [_weighted(c, -1) for c in flat_canon], '(xw, yw, zw, w) becomes (xw/w, yw/w, zw/w, w)'),
+            ('generate_ctrlptsw2d', [g4], [[_weighted(c, 1) for c in row] for row in g4], '(x, y, z, w) becomes (x*w, y*w, z*w, w), same [u][v] shape'),
+            ('generate_ctrlpts2d_weights', [g4], [[_weighted(c, -1) for c in row] for row in g4], '(xw, yw, zw, w) becomes (x, y, z, w), same [u][v] shape'),
+            ('combine_ctrlpts_weights', [flat3, ws], [[c.combine(w, 1) for c in p] + [w] for p, w in zip(flat3, ws)], 'point k is multiplied by weight k and weight k appended'),
+            ('combine_ctrlpts_weights', [flat3], [[c.dep for c in p] + [ANY] for p in flat3], 'no weights: every coordinate computed from itself only, one weight appended'),
+            ('separate_ctrlpts_weights', [flat_canon], [[[c.combine(p[-1], -1) for c in p[:-1]] for p in flat_canon], [p[-1] for p in flat_canon]],
+             'coordinates divided by their own weight, weights listed in the same order'),
+        ]
+    for name, args, want, doc in cases:
+        fi = m.func('compatibility.' + name)
+        sk = SK(m, dict(STD_ABSTRACTED))
+        key = 'compatibility.%s(%d argument%s)' % (name, len(args), '' if len(args) == 1 else 's')
+        try:
+            out = sk.call(fi, list(args), {})
+            why = _same_cells(out, want)
+        except Violation as v:
+            why = '%s %s' % (v.msg, v.where())
+        except Unsupported as ex:
+            raise AnalysisError('%s: interpreter met an unsupported construct: %s' % (key, ex))
+        run.ob('CV3.converter-on-monomial-cells', key, why is None, doc if why is None else 'expected: %s; %s' % (doc, why), 'geomdl/compatibility.py:%d in %s' % (fi.node.lineno, fi.key))
+    if 'file' in which:
+        fcases = [
+            ('flip_ctrlpts2d_file', [[g4[i][j] for i in range(su)] for j in range(sv)], (sv, su), 'saves the [v][u] array with (size_v, size_u) as its row / column counts'),
+            ('generate_ctrlptsw2d_file', [[_weighted(c, 1) for c in row] for row in g4], (su, sv), 'saves the weighted array with the sizes read'),
+            ('generate_ctrlpts2d_weights_file', [[_weighted(c, -1) for c in row] for row in g4], (su, sv), 'saves the unweighted array with the sizes read'),
+        ]
+        for name, want, wsz, doc in fcases:
+            fi = m.func('compatibility.' + name)
+            saved = []
+            ab = dict(STD_ABSTRACTED)
+            ab[('compatibility', '_read_ctrltps2d_file')] = Py(lambda sk_, node, *a, **k: (g4, su, sv), 'read')
+            ab[('compatibility', '_save_ctrlpts2d_file')] = Py(lambda sk_, node, arr, a, b, *r, _s=saved, **k: _s.append((arr, a, b)), 'save')
+            sk = SK(m, ab)
+            key = 'compatibility.%s' % name
+            try:
+                sk.call(fi, ['in', 'out'], {})
+                if len(saved) != 1:
+                    why = 'saves %d arrays' % len(saved)
+                else:
+                    arr, a, b = saved[0]
+                    why = _same_cells(arr, want)
+                    if why is None and (a, b) != wsz:
+                        why = 'the array saved is [%d][%d] but _save_ctrlpts2d_file is told %d rows of %d columns' % (wsz[0], wsz[1], a, b)
+            except Violation as v:
+                why = '%s %s' % (v.msg, v.where())
+            except Unsupported as ex:
+                raise AnalysisError('%s: interpreter met an unsupported construct: %s' % (key, ex))
+            run.ob('CV3.file-variant-on-monomial-cells', key, why is None, doc if why is None else 'expected: %s; %s' % (doc, why), 'geomdl/compatibility.py:%d in %s' % (fi.node.lineno, fi.key))
